@@ -163,6 +163,38 @@ def build(shape, size, rng):
             return out
 
         return font, samples
+    if shape == "foreigncov":
+        # a GPOS table written by the independent builder (oracles.foreign): coverage tables that number
+        # their glyphs in an order other than glyph id order, with values / pair sets indexed by them
+        from fontTools.ttLib import TTFont
+        from oracles import container, foreign
+
+        base, _ = make_font(size)
+        b = io.BytesIO()
+        base.save(b)
+        g, exp = foreign.gpos_unsorted(size, rng)
+        tabs = dict(container.tables_of(b.getvalue()))
+        tabs["GPOS"] = g
+        font = TTFont(io.BytesIO(container.rebuild_sfnt(b.getvalue()[:4], tabs)), recalcTimestamp=False)
+        font.ensureDecompiled()
+
+        def samples(r, kk=0):
+            out = []
+            if exp["single"] and not exp["pair"]:
+                for gid, adv in sorted(exp["single"].items()):
+                    out.append(([gid, 0], ("adv0", ADV + adv)))
+            elif exp["pair"] and not exp["single"]:
+                for (g1, g2), v in sorted(exp["pair"].items()):
+                    out.append(([g1, g2], ("adv0", ADV + v)))
+            else:
+                for (g1, g2), v in sorted(exp["pair"].items()):
+                    out.append(([g1, g2], ("adv0", ADV + v + exp["single"].get(g1, 0))))
+                for gid, adv in sorted(exp["single"].items()):
+                    if not any(k[0] == gid for k in exp["pair"]):
+                        out.append(([gid, 0], ("adv0", ADV + adv)))
+            return out
+
+        return font, samples
     if shape == "manylookups":
         nl = size
         ng = 260
